@@ -97,6 +97,12 @@ def _check_expr(reader, A, e, c, stats):
     require(isinstance(out, np.ndarray), '%s is not an array' % what, key='not-array',
             observed=type(out))
     same_array(what, out, exp, key='values:' + e['t'] + ('+cols' if c is not None else ''))
+    if isinstance(rows, np.ndarray):
+        # NumPy indexing has no side effect on the index: the same index object must select the
+        # same rows when it is used again
+        again = must_return(what + ' (same index object, second use)', lambda: reader[rows])
+        same_array(what + ' (same index object, second use)', again, S.numpy_rows(A, e),
+                   key='values:index-reused')
     stats['exprs'] += 1
 
 
